@@ -340,7 +340,7 @@ class TestCmd:
                 pat = {"pattern": rng.choice(gp.LEGACY_PATTERNS)}
                 tree = rl.tokenize(pat["pattern"])
             else:
-                pat = gp.gen_pattern(rng)
+                pat = gp.gen_pattern(rng, reorder=rng.random() < 0.08)
                 tree = rp.tokenize(pat["pattern"])
             if rp.parts_of(tree):
                 break
